@@ -23,6 +23,10 @@ import (
 // Schema is a GraphQL schema.
 type Schema struct {
 	Object
+
+	// implied is true for the schema formed from the Query, Mutation, and
+	// Subscription types when there is no schema block.
+	implied bool
 }
 
 // Rank of the type.
